@@ -182,3 +182,8 @@ EXTRA["C10"] = EXTRA.get("C10", []) + [
     M("helper-hd-pubs-keyed-by-record", "psbt_helper.py", "        hd_pubs[named_global_hd_pubkey_obj.raw_serialize()] = named_global_hd_pubkey_obj\n",
       "        hd_pubs[named_global_hd_pubkey_obj.serialize()] = named_global_hd_pubkey_obj\n", ["C10.24"], "helper keys the global xpub map by the whole record (F41 undone)"),
 ]
+
+EXTRA["C18"] = EXTRA.get("C18", []) + [
+    M("filter-serialised-from-set", "compactfilter.py", "        return serialize_gcs(self.sorted_hashes)\n",
+      "        return serialize_gcs(sorted(list(self.hashes)))\n", ["C18.19"], "values that occur twice are dropped on serialisation (F42 undone)"),
+]
